@@ -249,7 +249,7 @@ void build(bool thorough) {
       for (int sh = 0; sh < 3; ++sh)
         if (!(std::binary_search(core.begin(), core.end(), id))) g_cases.push_back({0, (uint8_t)sh, (uint8_t)k, id});
   for (uint32_t id : sweep2)
-    for (int k = 0; k < 4; ++k)
+    for (int k = 0; k < 2; ++k)
       for (int sh = 0; sh < 3; ++sh)
         if (!std::binary_search(sweep.begin(), sweep.end(), id)) g_cases.push_back({0, (uint8_t)sh, (uint8_t)k, id});
   for (uint32_t id : heapset)
@@ -258,7 +258,7 @@ void build(bool thorough) {
     for (int sh = 0; sh < 3; ++sh) g_cases.push_back({2, (uint8_t)sh, 0, id});
 
   // --- units ---
-  std::vector<uint32_t> usweep, ucore, uheap;
+  std::vector<uint32_t> usweep, usweep2, ucore, uheap;
   for (size_t len : {(size_t)0, (size_t)1, (size_t)63, (size_t)64, (size_t)300}) {
     std::string b = base_unit(len);
     uint32_t id = intern(g_units, uidx, b);
@@ -278,15 +278,15 @@ void build(bool thorough) {
     if (thorough && len >= 2 && len <= 64)
       for (int v = 0; v < 256; ++v)
         for (char ch : kClasses) {
-          std::string m = b; m[0] = (char)v; m[len - 1] = ch; usweep.push_back(intern(g_units, uidx, m));
-          m = b; m[0] = ch; m[len - 1] = (char)v; usweep.push_back(intern(g_units, uidx, m));
+          std::string m = b; m[0] = (char)v; m[len - 1] = ch; usweep2.push_back(intern(g_units, uidx, m));
+          m = b; m[0] = ch; m[len - 1] = (char)v; usweep2.push_back(intern(g_units, uidx, m));
         }
   }
   for (const std::string &s : {std::string("m\0\x80", 3), base_unit(10) + std::string("\0", 1) + base_unit(60), std::string("\0", 1)}) {
     uint32_t id = intern(g_units, uidx, s);
     usweep.push_back(id); ucore.push_back(id);
   }
-  uniq(usweep); uniq(ucore); uniq(uheap);
+  uniq(usweep); uniq(usweep2); uniq(ucore); uniq(uheap);
   for (uint32_t id : ucore)
     for (int k = 0; k < 12; ++k)
       for (int sh = 0; sh < 3; ++sh) g_cases.push_back({1, (uint8_t)sh, (uint8_t)k, id});
@@ -294,6 +294,10 @@ void build(bool thorough) {
     for (int k = 0; k < sweep_kinds; ++k)
       for (int sh = 0; sh < 3; ++sh)
         if (!std::binary_search(ucore.begin(), ucore.end(), id)) g_cases.push_back({1, (uint8_t)sh, (uint8_t)k, id});
+  for (uint32_t id : usweep2)
+    for (int k = 0; k < 2; ++k)
+      for (int sh = 0; sh < 3; ++sh)
+        if (!std::binary_search(usweep.begin(), usweep.end(), id)) g_cases.push_back({1, (uint8_t)sh, (uint8_t)k, id});
   for (uint32_t id : uheap) g_cases.push_back({1, HEAP, 0, id});
   for (uint32_t id : usweep)
     for (int sh = 0; sh < 3; ++sh) g_cases.push_back({3, (uint8_t)sh, 0, id});
